@@ -66,10 +66,25 @@ Enabled(s, o) ==
     [] o.op = "undef"    -> s.own[c][o.a][o.b] # Absent /\ BareExporters(s, c, o.a, o.b) = {}
     [] OTHER             -> FALSE
 
+\* An operation that asks for what already holds (use-package of a package already used, export of a name already
+\* exported, a definition with the value the name already has, unuse-package / unexport of what is not used / exported,
+\* in-package of the current package) is allowed and changes nothing: Step maps the state to itself.  The bounded
+\* exploration leaves these out by Enabled and takes them in by Redundant (PackagesGen!RNext) so that they can be
+\* counted; an implementation that keeps more than the graph (user lists, copied tables) can get them wrong.
+Redundant(s, o) ==
+  LET c == s.cur IN
+  CASE o.op = "use"      -> o.a # c /\ InSeq(o.a, s.uses[c])
+    [] o.op = "unuse"    -> o.a # c /\ ~InSeq(o.a, s.uses[c])
+    [] o.op = "inpkg"    -> o.a = c
+    [] o.op = "export"   -> o.a \in s.exported[c]
+    [] o.op = "unexport" -> o.a \notin s.exported[c]
+    [] o.op = "def"      -> s.own[c][o.a][o.b] = o.c
+    [] OTHER             -> FALSE
+
 \* the set of successor states (more than one only for the bare-exporter case of "def")
 Step(s, o) ==
   LET c == s.cur IN
-  CASE o.op = "use"      -> {[s EXCEPT !.uses[c] = Append(@, o.a)]}
+  CASE o.op = "use"      -> {[s EXCEPT !.uses[c] = IF InSeq(o.a, @) THEN @ ELSE Append(@, o.a)]}
     [] o.op = "unuse"    -> {[s EXCEPT !.uses[c] = SelectSeq(@, LAMBDA x : x # o.a)]}
     [] o.op = "inpkg"    -> {[s EXCEPT !.cur = o.a]}
     [] o.op = "export"   -> {[s EXCEPT !.exported[c] = @ \cup {o.a}]}
